@@ -18,8 +18,9 @@ def run(ctx):
     ctx.guard(transcription_rule, ctx, "C18.case-flag")
     from ..kernels import run_kernels
     run_kernels(ctx, ["K0", "K15", "K14"], "C18")
-    records = collect_walk_effects(ctx)
-    ctx.guard(case_taint_rule, ctx, "C18.case-taint", records)
+    records = ctx.guard(collect_walk_effects, ctx)
+    if records is not None:
+        ctx.guard(case_taint_rule, ctx, "C18.case-taint", records)
     from ..rules_misc import k21_match_overrides
     ctx.guard(k21_match_overrides, ctx, "C18")
     from ..rules_misc import text_consumers_rule
